@@ -29,6 +29,7 @@ pub mod c07;
 pub mod c08;
 pub mod c12;
 pub mod c13;
+pub mod c14;
 pub mod cfg;
 pub mod fault;
 pub mod gen;
@@ -40,7 +41,7 @@ pub mod world;
 use scenario::MarketHistory;
 use simcore::{CheckSpec, Part};
 
-pub const PROPERTIES: &[&str] = &["C02", "C03", "C04", "C05", "C06", "C07", "C08", "C12", "C13"];
+pub const PROPERTIES: &[&str] = &["C02", "C03", "C04", "C05", "C06", "C07", "C08", "C12", "C13", "C14"];
 
 fn common_assumptions() -> Vec<String> {
     vec![
@@ -97,6 +98,9 @@ pub fn registry(property: &str) -> Option<CheckSpec> {
         "C12" => Some(spec("C12", "exploration", 400_000, 8_000_000, vec![
             "The rate an update used is not part of its report; the harness obtains it from the public next_funding_factor_per_second on a fork of the pre-state with the same duration and open interest.".into(),
             "The minimum is demanded literally (whenever both sides have open interest); the key separates adaptive from non-adaptive configurations.".into(),
+        ])),
+        "C14" => Some(spec("C14", "exploration", 400_000, 8_000_000, vec![
+            "Elapsed time is the simulated clock minus the harness' snapshot of the last distribution time; the position impact pool is filled by the negative impact of real position operations of the history.".into(),
         ])),
         _ => None,
     }
